@@ -77,7 +77,7 @@ theorem find_arg_of_nodup (ys : List Argument) (hy : (ys.map (·.name.value)).No
         · exact h
         · exact absurd (List.mem_map.2 ⟨y, h, hz.symm⟩) hy.1
       subst this
-      simp [List.find?_cons]
+      simp
     · have hmem' : y ∈ zs := by
         rcases List.mem_cons.1 hmem with h | h
         · exact absurd (by rw [h]) hz
